@@ -4,6 +4,10 @@ import json
 props=[json.loads(l) for l in open('/verif/properties.jsonl')]
 # id -> (technique, level text, level note)
 CLAIMED={
+ 'C20':("exhaustive ascending depth sweep in crash-isolated worker processes (every depth up to a bound, then a fixed grid) plus exhaustive enumeration of extreme integer arguments",
+        "every nesting depth 1..1024/4096 for 16 operations x 3 shapes x 2 pinned stack sizes in workers whose death is attributed to the announced case; grid to 300k; extreme i32 arguments (thorough: all 2^32) with overflow checks on",
+        "between grid points above the exhaustive bound depths are not covered; results are mem::forget-ed so recursive Drop is outside the operation under test"),
+
  'C07':("explicit-state breadth-first search over the real transition functions (histories), cross-checked with a stateright model of the same transition system",
         "all chains of library operations up to depth 3/4 from 26 initial documents; every state deduplicated on full bytes; every transition validated against the tree model and the strict validator; stateright BFS must agree on unique-state count and verdict at depth 2",
         "depth bound and successor size cap (checked but not expanded beyond the cap)"),
